@@ -23,7 +23,7 @@ def fee_expect(p, side):
     NONE_ = ('adt', 'std::option::Option', 'None', ())
     if rs == 'None' and as_ == 'None': return NONE_, None
     if rs == 'Some' and as_ == 'Some':
-        both_empty = p.holds(EQ(S(''), SOMEV(acct)), True) is not None and p.holds(EQ(S(''), SOMEV(rate)), True) is not None
+        both_empty = p.str_empty(SOMEV(acct)) is not None and p.str_empty(SOMEV(rate)) is not None
         if both_empty: return NONE_, None
         return ('adt', 'std::option::Option', 'Some', (('0', ('adt', 'common::FeeInfo', 'FeeInfo', (('account', ('ok', ('rcall', 'addr_validate', (SOMEV(acct),)))), ('rate', SOMEV(rate))))),)), ('is', ('rcall', 'from_str', (SOMEV(rate),)), 'Ok')
     return None, 'half'
